@@ -37,10 +37,10 @@ class Context(object):
 def gen_plan(seed, k):
     rp = usimlib.substream(seed, "plan")
     dm = rp.choice(["lua", "lua", "promela", "null"])
-    root = p_c01.gen_chart(rp, dm, {"sends": True})
+    root = p_c01.gen_chart(rp, dm, {"sends": True, "hist_p": 0.45, "par_p": 0.2})
     engine = rp.choice(["large", "fast"])
     ops = [{"op": "create", "i": 0, "chart": "main", "engine": engine}, {"op": "validate", "i": 0}]
-    hist = p_c01.history_ops(rp)
+    hist = p_c01.history_ops(rp, many=(True if (root.meta or {}).get("par_bias") and rp.random() < 0.8 else None))
     for o in hist:
         if o["op"] == "run":
             o["snap"] = True
